@@ -9,6 +9,7 @@ import JS.Module
 import JS.Spec.Equality
 import JS.Spec.Numeric
 import JS.Spec.Pointer
+import JS.Spec.Valid
 namespace JS.Channels
 open JS JS.Codec
 
@@ -289,11 +290,42 @@ def runMOD (env : Env) (p : Json) : Except Query Json :=
     | _ => .ok (.obj [ ("validate".toList, encModResult r), ("warned".toList, .bool warned),
                        ("validatorFor".toList, vf), ("checkSchema".toList, chk) ])
 
+/-- every string occurring in a JSON value as an object key or as a string value -/
+partial def stringsOf : Json → List Str
+  | .str s => [s]
+  | .arr xs => xs.flatMap stringsOf
+  | .obj kvs => kvs.flatMap fun (k, v) => k :: stringsOf v
+  | _ => []
+
+/-- the regular expressions a schema uses: keys of `patternProperties`, values of `pattern` -/
+partial def patternsOf : Json → List Str
+  | .arr xs => xs.flatMap patternsOf
+  | .obj kvs => kvs.flatMap fun (k, v) =>
+      (if k == "patternProperties".toList then (match v with | .obj ps => ps.map (·.1) | _ => []) else [])
+      ++ (if k == "pattern".toList then (match v with | .str p => [p] | _ => []) else [])
+      ++ patternsOf v
+  | _ => []
+
+/-- SPEC: the specification's verdict and shape predicate (no implementation side) -/
+def runSPEC (env : Env) (p : Json) : Except Query Json :=
+  match (asStr (fldD p "d" .null)).bind (fun t => Draft.ofTag? (String.ofList t)) with
+  | none => .ok (.arr [jS "bad-draft"])
+  | some d =>
+    let schema := fldD p "schema" .null
+    let inst := fldD p "inst" .null
+    let need := (patternsOf schema).eraseDups.flatMap fun pat => (stringsOf inst).eraseDups.map fun s => (pat, s)
+    match need.find? (fun ps => (env.reSearch ps.1 ps.2).isNone) with
+    | some (pat, s) => .error (.reSearch pat s)
+    | none =>
+      .ok (.obj [ ("valid".toList, .bool (Spec.valid env d schema inst)),
+                  ("shaped".toList, .bool (Spec.shaped d schema)) ])
+
 def run (ch : String) (env : Env) (p : Json) : Except Query Json :=
   match ch with
   | "VAL" => runVAL env p
   | "HIST" => runHIST env p
   | "MOD" => runMOD env p
+  | "SPEC" => runSPEC env p
   | "PTR" => .ok (runPTR p)
   | "EQ" => .ok (runEQ p)
   | "NUM" => .ok (runNUM p)
